@@ -289,6 +289,21 @@ pub fn run_seq_with_state(seq: &Seq, dir: &Path, driver: &mut Option<Driver>, op
         steps += 1;
         *cov.ops.entry(op.kind().to_string()).or_default() += 1;
         let name = format!("m{}", cur);
+        // a `_string` variant is judged as its byte-level call; its outputs pass through from_utf8_lossy,
+        // which the model does not have: the api facet judges it only when every value involved is valid UTF-8
+        let (bop, sview) = op.base();
+        let lossy = |v: Option<Vec<u8>>| -> Option<Vec<u8>> {
+            if sview { v.map(|b| String::from_utf8_lossy(&b).to_string().into_bytes()) } else { v }
+        };
+        let sview_exact = !sview || {
+            let o = oracles.get(&cur);
+            let okv = |k: &B| o.and_then(|o| o.get(&k.bytes())).map(|v| std::str::from_utf8(v).is_ok()).unwrap_or(true);
+            match &bop {
+                Op::Get(k) | Op::Del(k) => okv(k),
+                Op::BulkGet(ks) | Op::BulkDel(ks) => ks.iter().all(okv),
+                _ => true,
+            }
+        };
         // ---------------- model side
         let mut want: Option<String> = None;
         let mut ask = |d: &mut Option<Driver>, line: String| -> String {
@@ -297,7 +312,7 @@ pub fn run_seq_with_state(seq: &Seq, dir: &Path, driver: &mut Option<Driver>, op
                 _ => "-".into(),
             }
         };
-        match &op {
+        match &bop {
             Op::Map(id, kt, p) => {
                 cur = *id;
                 if !model_maps.contains_key(id) {
@@ -326,7 +341,7 @@ pub fn run_seq_with_state(seq: &Seq, dir: &Path, driver: &mut Option<Driver>, op
                 *cov.klen.entry(len_class(k.len())).or_default() += 1;
                 want = Some(ask(driver, format!("{} put {} {}", name, k.tok(), v.tok())));
             }
-            Op::Get(k) | Op::GetString(k) => want = Some(ask(driver, format!("{} get {}", name, k.tok()))),
+            Op::Get(k) => want = Some(ask(driver, format!("{} get {}", name, k.tok()))),
             Op::Del(k) => want = Some(ask(driver, format!("{} del {}", name, k.tok()))),
             Op::Inc(k) => want = Some(ask(driver, format!("{} inc {}", name, k.tok()))),
             Op::Len => want = Some(ask(driver, format!("{} len", name))),
@@ -369,6 +384,10 @@ pub fn run_seq_with_state(seq: &Seq, dir: &Path, driver: &mut Option<Driver>, op
                 want = Some(if !(opts.model && driver.is_some()) { "-".into() } else if ok { "ok".into() } else { "FAIL".into() });
             }
             Op::Cmp(_) | Op::Rehandle(_) => {}
+            Op::GetString(_) | Op::PutString(..) | Op::DelString(_) | Op::BulkGetString(_) | Op::BulkDelString(_) => unreachable!(),
+        }
+        if !sview_exact {
+            want = Some("-".into());
         }
         // ---------------- implementation side
         let wid = watch_begin(opts.op_budget_ms, format!("op={} {}", idx, op.text()));
@@ -386,7 +405,7 @@ pub fn run_seq_with_state(seq: &Seq, dir: &Path, driver: &mut Option<Driver>, op
         // ---------------- oracle side
         let mut oracle_want: Option<String> = None;
         if let Some(o) = oracles.get_mut(&cur) {
-            match &op {
+            match &bop {
                 Op::Put(k, v) => {
                     if o.insert(k.bytes(), v.bytes()).is_some() {
                         cov.overwrite += 1;
@@ -398,28 +417,24 @@ pub fn run_seq_with_state(seq: &Seq, dir: &Path, driver: &mut Option<Driver>, op
                     if r.is_some() {
                         cov.found_hits += 1;
                     }
-                    oracle_want = Some(repr_opt(&r));
-                }
-                Op::GetString(k) => {
-                    let r = o.get(&k.bytes()).map(|v| String::from_utf8_lossy(v).to_string().into_bytes());
-                    oracle_want = Some(repr_opt(&r));
+                    oracle_want = Some(repr_opt(&lossy(r)));
                 }
                 Op::Del(k) => {
                     let r = o.remove(&k.bytes());
                     if r.is_some() {
                         cov.delete_hit += 1;
                     }
-                    oracle_want = Some(repr_opt(&r));
+                    oracle_want = Some(repr_opt(&lossy(r)));
                 }
                 Op::Inc(k) => oracle_want = Some(o.contains_key(&k.bytes()).to_string()),
                 Op::Len => oracle_want = Some(o.len().to_string()),
                 Op::Empty => oracle_want = Some(o.is_empty().to_string()),
                 Op::BulkGet(ks) => {
-                    oracle_want = Some(ks.iter().map(|k| repr_opt(&o.get(&k.bytes()).cloned())).collect::<Vec<_>>().join("|"))
+                    oracle_want = Some(ks.iter().map(|k| repr_opt(&lossy(o.get(&k.bytes()).cloned()))).collect::<Vec<_>>().join("|"))
                 }
                 Op::BulkDel(ks) => {
                     // element-wise in input order (batches have no repeated keys)
-                    oracle_want = Some(ks.iter().map(|k| repr_opt(&o.remove(&k.bytes()))).collect::<Vec<_>>().join("|"))
+                    oracle_want = Some(ks.iter().map(|k| repr_opt(&lossy(o.remove(&k.bytes())))).collect::<Vec<_>>().join("|"))
                 }
                 Op::BulkPut(kvs) | Op::BulkPutString(kvs) | Op::PutFromIter(kvs) => {
                     for (k, v) in kvs {
@@ -482,7 +497,7 @@ pub fn run_seq_with_state(seq: &Seq, dir: &Path, driver: &mut Option<Driver>, op
                 diffs.push(Diff { idx, facet, op: op.text(), got: got.clone(), want: w.clone() });
             }
         }
-        let changed = match &op {
+        let changed = match &bop {
             Op::Put(..) => true,
             Op::BulkPut(v) | Op::BulkPutString(v) | Op::PutFromIter(v) => !v.is_empty(),
             Op::Del(..) => got.starts_with("some"),
@@ -655,7 +670,7 @@ pub fn run_seq_with_state(seq: &Seq, dir: &Path, driver: &mut Option<Driver>, op
                             }
                             // (judged across single put/delete calls only: a batch call may reuse a free slot
                             // and free it again before it extends the file for a later pair)
-                            if let (Some(prev), true) = (prev_dec.get(&id), matches!(op, Op::Put(..) | Op::Del(..))) {
+                            if let (Some(prev), true) = (prev_dec.get(&id), matches!(bop, Op::Put(..) | Op::Del(..))) {
                                 if let Some(e) = crate::decoder::extend_rule(prev, &dec) {
                                     diffs.push(Diff { idx, facet: "decoder", op: format!("extend-only-if-needed m{} after {}", id, op.text()), got: e, want: "file extended only when no free slot fits".into() });
                                 }
